@@ -36,6 +36,7 @@ Apply(o, t) ==
     [] t.ev = "SendCall"  -> OSendCall(o, t.b, t.seq, t.ids, t.t)
     [] t.ev = "SendBytes" -> OSendBytes(o, t.b, t.first, t.total, t.last, t.limit)
     [] t.ev = "Stale"     -> OStale(o, t.b, t.first, t.waited, t.bound)
+    [] t.ev = "Refuse"    -> OInRet(o, t.id, FALSE)
     [] t.ev = "Skipped"   -> [o EXCEPT !.viol = @ \cup {V("deliverable_event_not_sent", t.id, 0, t.b, "")}]
     [] t.ev = "ParentSent" -> [o EXCEPT !.viol = @ \cup {V("parent_sent", t.id, 0, t.b, "")}]
     [] t.ev = "SendRet"   -> OSendRet(o, t.b, t.ids, t.ok, t.t)
